@@ -105,6 +105,20 @@ func c09Cases(tier string, seed uint64) []fw.Case {
 		c.Name = fmt.Sprintf("tracer/%d", i)
 		cs = append(cs, fw.MkCase("tracer", &c))
 	}
+	// crowded tracer: 4..6 joiners with tiny buffers that come and go close to each other while 1..2 slow
+	// permanent subscribers keep the broadcast blocked: leavers at every list position relative to the
+	// subscriber the tracer is blocked on
+	for i := 0; i < n/3; i++ {
+		c := c09Case{Level: "tracer", Senders: 1 + rng.Intn(3), Sends: 60, Hooks: []float64{0, 0.3}[rng.Intn(2)], Procs: []int{2, 4, 8}[rng.Intn(3)], Slow: 1 + rng.Intn(2)}
+		total := c.Senders * c.Sends
+		nj := 4 + rng.Intn(3)
+		base := rng.Intn(total / 2)
+		for j := 0; j < nj; j++ {
+			c.Joiners = append(c.Joiners, c09Joiner{After: base + rng.Intn(10), Read: 1 + rng.Intn(12), Buf: []int{0, 0, 1, 2}[rng.Intn(4)], Pace: rng.Intn(3)})
+		}
+		c.Name = fmt.Sprintf("tracer-crowd/%d", i)
+		cs = append(cs, fw.MkCase("tracer", &c))
+	}
 	// engine level: grammar + same order on generated programs
 	progs := forcedPairs(rng)
 	nr := 30
@@ -483,7 +497,7 @@ func init() {
 			}
 			return v
 		},
-		Rule:        "tracer level: PRNG histories with 1..8 senders x 200 uniquely numbered traces, a permanent reference subscriber, 0..2 permanent slow subscribers (buffer 0/1, paced readers; must see exactly the reference sequence), optional cancellation of the tracer's context at a PRNG point while the registered senders go on (everything they send must still be delivered, then the tracer terminates and closes every channel), plus 0..3 joiners that subscribe at a PRNG point, read a PRNG number of traces (pacing none/yield/50us, buffer 0/1/10/1000) and unsubscribe; GOMAXPROCS 1/2/4/8; hooks in Send/broadcast/Subscribe/Unsubscribe; offline checks: reference sequence is a permutation respecting each sender's order, each joiner's reads and its buffer leftovers are contiguous blocks of the reference order in the right order, nothing sent after Subscribe returned is missed, nothing arrives after Unsubscribe returned, no deadlock at the quiescent point; engine level: generated programs run stepwise with two subscribers (also with the goroutine making the n-th hit of flow.fork / flow.action / flow.loop / tracer.send / tracer.bcast paused 300 us, on the nesting pairs and on activities whose flow action takes several sequence flows with the first one not taken), causal grammar (flow trace before NewFlow of the flows it announces, visit before leave, termination last) and identical order for both subscribers; non-trivial = > 1 sender or >= 1 joiner (tracer) / any engine run; distinct = descriptor hash",
+		Rule:        "tracer level: PRNG histories with 1..8 senders x 200 uniquely numbered traces, a permanent reference subscriber, 0..2 permanent slow subscribers (buffer 0/1, paced readers; must see exactly the reference sequence), optional cancellation of the tracer's context at a PRNG point while the registered senders go on (everything they send must still be delivered, then the tracer terminates and closes every channel), plus 0..3 joiners that subscribe at a PRNG point, read a PRNG number of traces (pacing none/yield/50us, buffer 0/1/10/1000) and unsubscribe; crowded variants (4..6 joiners with buffers 0..2 coming and going within a few traces of each other next to 1..2 slow permanent subscribers); GOMAXPROCS 1/2/4/8; hooks in Send/broadcast/Subscribe/Unsubscribe; offline checks: reference sequence is a permutation respecting each sender's order, each joiner's reads and its buffer leftovers are contiguous blocks of the reference order in the right order, nothing sent after Subscribe returned is missed, nothing arrives after Unsubscribe returned, no deadlock at the quiescent point; engine level: generated programs run stepwise with two subscribers (also with the goroutine making the n-th hit of flow.fork / flow.action / flow.loop / tracer.send / tracer.bcast paused 300 us, on the nesting pairs and on activities whose flow action takes several sequence flows with the first one not taken), causal grammar (flow trace before NewFlow of the flows it announces, visit before leave, termination last) and identical order for both subscribers; non-trivial = > 1 sender or >= 1 joiner (tracer) / any engine run; distinct = descriptor hash",
 		Assumptions: []string{"subscribers honour the documented contract: they keep reading until they unsubscribe", "unsubscribing a channel twice is not exercised"},
 	})
 }
